@@ -282,6 +282,67 @@ def _work(task):
   return col
 
 
+CELLS = ('control-pre', 'treatment-pre', 'control-test')
+
+
+def _label_tasks(tier, seed):
+  rng = np.random.default_rng(seed + 17)
+  n_seeds = 2 if tier == 'quick' else 6
+  seeds = [int(s) for s in rng.integers(0, 2 ** 31 - 1, n_seeds)]
+  tasks = []
+  for s in seeds:
+    for n_pre in (4, 10, 40):
+      for n_cool in L.N_COOL:
+        for mask in range(8):
+          for amount in (2.0, 1e-6):
+            if mask == 0 and amount != 2.0:
+              continue
+            tasks.append(dict(seed=s, n_pre=n_pre, n_cool=n_cool, mask=mask,
+                              amount=amount))
+  return tasks
+
+
+def _label_work(task):
+  """Scenario label against the raw cost cells: non-incremental spend is
+  placed in any subset of (control pre-period, treatment pre-period, control
+  test period); the label must be 'fixed' exactly for the empty subset."""
+  from matched_markets.methodology import tbr_iroas
+  col = L.Collector()
+  spec = L.default_spec(seed=task['seed'], n_pre=task['n_pre'], n_test=3,
+                        n_cool=task['n_cool'], cost='zero')
+  tot = L.group_totals(spec)
+  per = tot['period']
+  rng = np.random.default_rng([task['seed'], task['mask']])
+  jit = rng.uniform(0.5, 1.5, len(per))
+  on = [bool(task['mask'] >> i & 1) for i in range(3)]
+  amt = task['amount']
+  xc = (np.where(per == L.PRE, amt * jit, 0.0) * on[0] +
+        np.where(per == L.TEST, amt * jit, 0.0) * on[2])
+  yc = tot['yc'] + np.where(per == L.PRE, amt * jit, 0.0) * on[1]
+  frame = L.frame_from_totals(per, tot['xr'], tot['yr'], xc, yc)
+  want = 'fixed' if abs(non_incremental_cost(frame)) < 1e-10 else 'variable'
+  cells = [c for c, o in zip(CELLS, on) if o]
+  for uc in (False, True):
+    inp = dict(spec=L.spec_json(spec), cells_with_spend=cells, amount=amt,
+               use_cooldown=uc)
+    key = L.short_key('label', L.spec_key(spec), task['mask'], amt, uc)
+    model = tbr_iroas.TBRiROAS(use_cooldown=uc)
+    try:
+      model.fit(frame)
+      rep = model.summary(level=0.9, tails=1, nsims=200, random_state=1)
+    except Exception as e:  # pylint: disable=broad-except
+      col.case(key, nontrivial=False,
+               sample=dict(inp, raised=type(e).__name__))
+      continue
+    col.case(key, nontrivial=True,
+             sample=dict(inp, scenario=rep['scenario'].iloc[0]))
+    if rep['scenario'].iloc[0] != want:
+      col.violation('C07/scenario-label', dict(
+          inp, non_incremental_cost=non_incremental_cost(frame),
+          got=rep['scenario'].iloc[0], want=want))
+  return col
+
+
 def run(tier, seed):
   tasks = _tasks(tier, seed)
   res = base.MonitorResult(
@@ -303,6 +364,13 @@ def run(tier, seed):
   res.bound = ('n_pre <= 40, n_test <= 9, cooldown <= 3, nsims = 2000, %d '
                'frames' % len(tasks))
   L.absorb(res, L.pool_map(_work, tasks))
+  ltasks = _label_tasks(tier, seed)
+  L.absorb(res, L.pool_map(_label_work, ltasks))
+  res.notes.append(
+      'scenario-label sweep: %d frames with non-incremental spend (2.0 or '
+      '1e-6 per day) in each subset of {control pre-period, treatment '
+      'pre-period, control test period}; label must be fixed iff the subset '
+      'is empty' % len(ltasks))
   res.notes.append(
       'the non-incremental cost total that decides the scenario label sums '
       'the pre-period costs of EVERY labelled group, unassigned geos '
